@@ -105,3 +105,57 @@ func HarnessC14AnyOrder() {
 	}
 	vreach("end")
 }
+
+// HarnessC14StrictWithUnready: explicit subset of k upstreams of which an arbitrary non-empty subset is ready (the
+// others disabled or unhealthy): over N consecutive picks every READY endpoint is chosen floor(N/r) or ceil(N/r) times
+// (r = number of ready endpoints) and an unready endpoint never.
+// verif:bounds k = 3 (quick) / 3..4 (thorough) upstreams, every ready/unready combination with r >= 2 ready; cursor any uint64 below 2^64-16; N = 1..r+1 (quick) / 2r+1 (thorough)
+func HarnessC14StrictWithUnready() {
+	k := nondetRange("k", 3, vbound(3, 4))
+	c, eps := c14Cluster(k)
+	r := 0
+	ready := make([]bool, k)
+	for i := 0; i < k; i++ {
+		ready[i] = nondetBool("ready", i)
+		if ready[i] {
+			r++
+		} else if nondetBool("disabledNotUnhealthy", i) {
+			eps[i].status.Disabled = true
+		} else {
+			eps[i].status.Healthy = false
+		}
+	}
+	vassume(r >= 2)
+	s := &endpointPickStrategy{cluster: c, upstreams: c14Names[:k]}
+	if _, err := s.Pop(); err != nil {
+		vfail("C14/pop-fails-with-ready-endpoints")
+	}
+	c0 := nondetUint64("c0")
+	vassume(c0 < 1<<64-16)
+	c14SetCursor(c, c0)
+	n := nondetRange("N", 1, r+vbound(1, r+1))
+	counts := make([]int, k)
+	for i := 0; i < n; i++ {
+		ep, err := s.Pop()
+		if err != nil || ep == nil {
+			vfail("C14/pop-fails-with-ready-endpoints")
+			return
+		}
+		for j := range eps {
+			if eps[j] == ep {
+				counts[j]++
+			}
+		}
+	}
+	lo := n / r
+	hi := (n + r - 1) / r
+	for j := 0; j < k; j++ {
+		if ready[j] {
+			vassert(counts[j] >= lo, "C14/strict-endpoint-starved")
+			vassert(counts[j] <= hi, "C14/strict-endpoint-favoured")
+		} else {
+			vassert(counts[j] == 0, "C14/unready-endpoint-picked")
+		}
+	}
+	vreach("end")
+}
